@@ -41,7 +41,9 @@ func SplitOnUniqueMaterials(m modeling.Mesh) []modeling.Mesh {
 
 	orinalIndices := m.Indices()
 	for triStart := 0; triStart < orinalIndices.Len(); triStart += 3 {
-		if originalMaterials[curMatIndex].PrimitiveCount+trisFromOtherMats <= triStart/3 {
+		// A material can cover zero primitives, so more than one might need to
+		// be skipped to reach the one that owns this triangle
+		for originalMaterials[curMatIndex].PrimitiveCount+trisFromOtherMats <= triStart/3 {
 			trisFromOtherMats += originalMaterials[curMatIndex].PrimitiveCount
 			curMatIndex++
 			if _, ok := workingMeshes[originalMaterials[curMatIndex].Material]; !ok {
